@@ -110,6 +110,22 @@ class LogicConv2d(nn.Module):
         self.temperature = temperature
 
 
+    def _raw_level_weights(self, level):
+        """Gate weights of one tree level: (nodes, kernels, 16)."""
+        if not self.training:
+            # eval mode: the most probable gate, independent of the sampling mode
+            return torch.stack(
+                [torch.nn.functional.one_hot(w.argmax(-1), 16).to(torch.float32)
+                 for w in self.tree_weights[level]], dim=0
+            )
+        weighting_func = {
+            "soft": soft_raw,
+            "hard": hard_raw,
+            "gumbel_soft": lambda w: gumbel_softmax(w, tau=self.temperature, hard=False),
+            "gumbel_hard": lambda w: gumbel_softmax(w, tau=self.temperature, hard=True),
+        }[self.forward_sampling]
+        return torch.stack([weighting_func(w) for w in self.tree_weights[level]], dim=0)
+
     def forward(self, x):
         """Implement the binary tree using the pre-selected indices."""
         current_level = x
@@ -128,37 +144,14 @@ class LogicConv2d(nn.Module):
         b = current_level[:, b_c, b_h, b_w]
 
         if self.parametrization == "raw":
-            weighting_func = {
-                "soft": soft_raw,
-                "hard": hard_raw,
-                "gumbel_soft": lambda w: gumbel_softmax(w, tau=self.temperature, hard=False),
-                "gumbel_hard": lambda w: gumbel_softmax(w, tau=self.temperature, hard=True),
-            }[self.forward_sampling]
-
-            level_weights = torch.stack(
-                [weighting_func(w) for w in self.tree_weights[0]], dim=0
-            )
-            if not self.training:
-                level_weights = torch.nn.functional.one_hot(level_weights.argmax(-1), 16).to(
-                    torch.float32
-                )
-
-            current_level = bin_op_cnn(a, b, level_weights)
+            current_level = bin_op_cnn(a, b, self._raw_level_weights(0))
 
             # Process remaining levels
             for level in range(1, self.tree_depth + 1):
                 left_indices, right_indices = self.indices[level]
                 a = current_level[..., left_indices]
                 b = current_level[..., right_indices]
-                level_weights = torch.stack(
-                    [weighting_func(w) for w in self.tree_weights[level]], dim=0
-                )
-                if not self.training:
-                    level_weights = torch.nn.functional.one_hot(level_weights.argmax(-1), 16).to(
-                        torch.float32
-                    )
-
-                current_level = bin_op_cnn(a, b, level_weights)
+                current_level = bin_op_cnn(a, b, self._raw_level_weights(level))
 
         elif self.parametrization == "walsh":
             level_weights = torch.stack([w for w in self.tree_weights[0]], dim=0)
